@@ -57,6 +57,7 @@ struct InFlight
     std::vector<int> completes;      // indexes into World::sent: messages whose last frame this is
     bool isSegmentFrame{false};
     long allocFail{-1};  // F_ALLOCFAIL
+    int depth{0};        // > 0: derived from the comparison operands of an earlier delivery (cmpfb)
     bool hasLead{false};  // unsegmented messages travel in front of the segment (version / type corruption would change THEM)
 };
 
@@ -120,6 +121,9 @@ private:
     // simulated wall clock (simclock.cpp)
     uint64_t clockJumpSeed{0};
     bool probed64{false};
+    bool cmpFeedback{false};  // cfg cmpfb: frames derived from the comparison operands of decode calls (asan variant)
+    int derivedLeft{48};
+    void deriveFromComparisons(const InFlight& f, const std::vector<cmpfb::Operand>& ops);
     uint64_t statusUpdates{0};
     bool shareInput{false};  // C19: receive buffers interned per content and shared between the threads
     uint64_t clockOffsetNs{0};
